@@ -535,7 +535,7 @@ func registerC04() {
 	register(&propDef{
 		id: "C04",
 		rule: "same engine as C01 with boundary-biased loads; directed families force each placement path (first assignment first-fit and weighted, head relief at every threshold, process relief, scale-down emptying the tail, oversized targets, several placements on one destination) with load+size at limit-1/limit/limit+1; " +
-			"plus real-process cases (2/8, engine E7): estimates from the real explorer probing 80-130 KB bodies (several parser blocks), a process limit two targets fit under and three do not, one oversized target with few kept series, one big target whose first answer breaks off after 40 lines with a TCP reset, and in every second case a collect[] param with two values that each add 700 samples to every answer; at every snapshot the farm's TRUE totals of the targets a shard lists stay below the limit; " +
+			"plus real-process cases (2/8, engine E7): estimates from the real explorer probing 80-130 KB bodies (several parser blocks), a process limit two targets fit under and three do not, one oversized target with few kept series, one big target whose first answer breaks off after 40 lines with a TCP reset, and in every second case a collect[] param with two values that each add 700 samples to every answer (six targets that fit two per shard, or two targets and one that exceeds the limit only with both collectors); at every snapshot the farm's TRUE totals of the targets a shard lists stay below the limit; " +
 			"non-trivial = at least one placement observed or an oversized eligible target present; distinct = hash of the case with sizes bucketed",
 		judge: judgeC04, nDirect: nA + nB + nC + nD + nE + nF, direct: direct,
 		// real processes: the estimates come from the real explorer probing targets with bodies of several parser blocks
